@@ -170,9 +170,14 @@ fn c05(g: &mut Gen) {
     }
     // constructors: fill values, invalid widths
     let mut lines = Vec::new();
-    for w in [0u64, 1, 13, 64, 65, 1000] {
+    for w in [0u64, 1, 2, 7, 13, 63, 64, 65, 1000] {
         lines.push(format!("iv X new {}", w));
         lines.push(format!("iv X with_len 5 {} {}", w, u64::MAX));
+        // fill values wider than the width, with every combination of low bit / high bits (truncation keeps the low bits)
+        for (k, v) in [0u64, 1, 2, 3, 6, u64::MAX - 1, 1u64 << 63, (1u64 << 63) + 1, 0xAAAA_AAAA_AAAA_AAAA, 0x5555_5555_5555_5555].iter().enumerate() {
+            lines.push(format!("iv X with_len {} {} {}", [0usize, 1, 5, 64, 70, 130][k % 6], w, v));
+            lines.push("iv X items".to_string());
+        }
         lines.push(format!("iv X with_capacity 5 {}", w));
     }
     for ty in ["u8", "u16", "u32", "u64", "usize", "iter64"] {
